@@ -21,10 +21,30 @@ type route struct {
 
 // routeTable extracts path literal -> handler from the router's string switch.
 func routeTable(w *World, tb *TB) ([]route, *ssa.Function) {
-	rf := w.Func(ApiPath, "routers")
-	if rf == nil {
-		return nil, nil
+	// the router is the service function that dispatches on the most path literals (found by what it does, not by
+	// its name)
+	var best []route
+	var rf *ssa.Function
+	for _, f := range w.ModuleFuncs(ApiPath) {
+		if isInit(f) || f.Blocks == nil {
+			continue
+		}
+		out := routeTableOf(w, tb, f)
+		n := 0
+		for _, r := range out {
+			if strings.HasPrefix(r.path, "/") {
+				n++
+			}
+		}
+		if n >= 3 && n > len(best) {
+			best, rf = out, f
+		}
 	}
+	return best, rf
+}
+
+// routeTableOf: the path literal → handler pairs the function rf dispatches on.
+func routeTableOf(w *World, tb *TB, rf *ssa.Function) []route {
 	var out []route
 	for _, b := range rf.Blocks {
 		iff, ok := b.Instrs[len(b.Instrs)-1].(*ssa.If)
@@ -132,7 +152,7 @@ func routeTable(w *World, tb *TB) ([]route, *ssa.Function) {
 		}
 	}
 	sort.Slice(out, func(i, j int) bool { return out[i].path < out[j].path })
-	return out, rf
+	return out
 }
 
 // jsonTags: Go field name -> json tag name for a struct type (nested pointer-to-struct fields included with a prefix).
@@ -159,6 +179,83 @@ func jsonTags(t types.Type, prefix string, out map[string]string, goPrefix strin
 		if _, isStruct := ft.Underlying().(*types.Struct); isStruct && strings.Contains(ft.String(), ApiPath) {
 			jsonTags(ft, prefix+name+".", out, goPrefix+f.Name()+".")
 		}
+	}
+}
+
+// wireField: the JSON wire name and tag options of field i of the struct type t.
+func wireField(t types.Type, i int) (string, []string) {
+	if p, ok := t.Underlying().(*types.Pointer); ok {
+		t = p.Elem()
+	}
+	st, ok := t.Underlying().(*types.Struct)
+	if !ok || i >= st.NumFields() {
+		return "", nil
+	}
+	tag, has := reflect.StructTag(st.Tag(i)).Lookup("json")
+	parts := strings.Split(tag, ",")
+	name := parts[0]
+	if !has || name == "" {
+		name = st.Field(i).Name()
+	}
+	if !st.Field(i).Exported() || (has && tag == "-") {
+		return "-", nil
+	}
+	return name, parts[1:]
+}
+
+// checkRespField: the response object of handler h carries the value `want` (a library result) in a field whose
+// JSON wire name is the documented `wire`, always present (no omitempty / string option). The field is found by the
+// value stored in it, not by its Go name.
+func checkRespField(c *Check, w *World, tb *TB, rule string, h *ssa.Function, wire, want, wantDesc, pos string) {
+	fn := FuncName(h)
+	found, wrongName, badOpt, altered := false, "", "", ""
+	EachInstr(h, func(in ssa.Instruction) {
+		st, ok := in.(*ssa.Store)
+		if !ok {
+			return
+		}
+		fa, ok := st.Addr.(*ssa.FieldAddr)
+		if !ok {
+			return
+		}
+		name, opts := wireField(fa.X.Type(), fa.Field)
+		vt := tb.Of(st.Val)
+		ok2 := false
+		for _, alt := range vt.Alts() {
+			if alt.Op == "extract" && alt.Sym == "0" && alt.Args[0].String() == want || alt.String() == want {
+				ok2 = true
+			}
+			// a URL result is rendered by its own String method, nothing else
+			if wire == "url" && alt.String() == "call((*net/url.URL).String; extract(0; "+want+"))" {
+				ok2 = true
+			}
+			if name == wire && !ok2 && alt.ContainsStr(want) {
+				altered = alt.String()
+			}
+		}
+		if !ok2 {
+			return
+		}
+		if name != wire {
+			wrongName = name
+			return
+		}
+		found = true
+		for _, o := range opts {
+			if o == "omitempty" || o == "omitzero" || o == "string" {
+				badOpt = o
+			}
+		}
+	})
+	switch {
+	case altered != "" && !found:
+		c.Bad(rule, fn, "response."+wire, "the response field "+wire+" is "+clip(altered, 200)+": the library's result is post-processed before it is returned", pos)
+	case found && badOpt != "":
+		c.Bad(rule, fn, "response."+wire, "the response field "+wire+" carries the json option "+badOpt+": the result is omitted or re-encoded for some values", pos)
+	case !found && wrongName != "":
+		c.Bad(rule, fn, "response."+wire, "the library's result is sent under the wire name "+wrongName+", documented "+wire, pos)
+	default:
+		c.Decide(found, rule, fn, "response."+wire, "the response field "+wire+" is the library's result", "the response field "+wire+" is not "+wantDesc, pos)
 	}
 }
 
@@ -685,54 +782,20 @@ func restRules(c *Check, w *World, tb *TB, ef *Effects, pfx string, only []strin
 				}
 			}
 		}
-		// response carries the library's result
+		// response carries the library's result, under its documented wire name
 		if respField != "" {
-			found := false
-			altered := ""
-			EachInstr(r.handler, func(in ssa.Instruction) {
-				st, ok := in.(*ssa.Store)
-				if !ok {
-					return
-				}
-				fa, ok := st.Addr.(*ssa.FieldAddr)
-				if !ok || fieldName(fa.X.Type(), fa.Field) != respField {
-					return
-				}
-				vt := tb.Of(st.Val)
-				want := tb.Of(h.Call.Value())
-				ok2 := false
-				for _, alt := range vt.Alts() {
-					if alt.Op == "extract" && alt.Sym == "0" && alt.Args[0].String() == want.String() || alt.String() == want.String() {
-						ok2 = true
-					}
-					// a URL result is rendered by its own String method, nothing else
-					if respField == "URL" && alt.String() == "call((*net/url.URL).String; extract(0; "+want.String()+"))" {
-						ok2 = true
-					}
-					if respField == "URL" && !ok2 && alt.ContainsStr(want.String()) {
-						altered = alt.String()
-					}
-				}
-				if ok2 {
-					found = true
-				}
-			})
-			if altered != "" {
-				c.Bad(pfx+".2", fn, "response."+respField, "the response field "+respField+" is "+clip(altered, 200)+": the library's URL is post-processed before it is returned", pos)
-			} else {
-				c.Decide(found, pfx+".2", fn, "response."+respField, "the response field "+respField+" is the library's result", "the response field "+respField+" is not the first result of otp."+lib, pos)
-			}
+			checkRespField(c, w, tb, pfx+".2", r.handler, respField, tb.Of(h.Call.Value()).String(), "the first result of otp."+lib, pos)
 		}
 		// the decode target is a per-request local
 		c.Decide(hi.reqRoot == "alloc", pfx+".5", fn, "request-object", "the request is decoded into a fresh per-request local", "the request is decoded into "+hi.reqRoot+": fields omitted by a request keep the values of an earlier request", w.Pos(r.handler.Pos()))
 	}
-	checkArgs("/totp/generate", "GenerateTOTP", []interface{}{secretForms, []string{tTime}, paramSpecs("Algorithm", "Digits", "Period")}, "Code")
-	checkArgs("/totp/validate", "ValidateTOTP", []interface{}{secretForms, []string{"$code"}, []string{tTime}, paramSpecs("Algorithm", "Digits", "Period", "Skew")}, "Valid")
-	checkArgs("/hotp/generate", "GenerateHOTP", []interface{}{secretForms, []string{"$counter"}, paramSpecs("Algorithm", "Digits")}, "Code")
-	checkArgs("/hotp/validate", "ValidateHOTP", []interface{}{secretForms, []string{"$code"}, []string{"$counter"}, paramSpecs("Algorithm", "Digits", "Skew")}, "Valid")
+	checkArgs("/totp/generate", "GenerateTOTP", []interface{}{secretForms, []string{tTime}, paramSpecs("Algorithm", "Digits", "Period")}, "code")
+	checkArgs("/totp/validate", "ValidateTOTP", []interface{}{secretForms, []string{"$code"}, []string{tTime}, paramSpecs("Algorithm", "Digits", "Period", "Skew")}, "valid")
+	checkArgs("/hotp/generate", "GenerateHOTP", []interface{}{secretForms, []string{"$counter"}, paramSpecs("Algorithm", "Digits")}, "code")
+	checkArgs("/hotp/validate", "ValidateHOTP", []interface{}{secretForms, []string{"$code"}, []string{"$counter"}, paramSpecs("Algorithm", "Digits", "Skew")}, "valid")
 	urlSpecs := []fieldSpec{{"Issuer", []string{"$issuer"}}, {"Secret", secretForms}, {"Period", []string{"$period"}}, {"Digits", []string{tDigits}}, {"Algorithm", []string{tAlgo}}, {"AccountName", []string{"$account_name"}}}
-	checkArgs("/otp/url", "GenerateTOTPURL", []interface{}{urlSpecs}, "URL")
-	checkArgs("/otp/url", "GenerateHOTPURL", []interface{}{urlSpecs}, "URL")
+	checkArgs("/otp/url", "GenerateTOTPURL", []interface{}{urlSpecs}, "url")
+	checkArgs("/otp/url", "GenerateHOTPURL", []interface{}{urlSpecs}, "url")
 	var suiteArgsSeen []string
 	suiteArg := func(g string) string {
 		// the suite handed to the library: raw_suite, when given, selects the registered suite; otherwise the
@@ -771,8 +834,8 @@ func restRules(c *Check, w *World, tb *TB, ef *Effects, pfx string, only []strin
 		}
 		return ""
 	}
-	checkArgs("/ocra/generate", "GenerateOCRA", []interface{}{secretForms, suiteArg, inputArg}, "Code")
-	checkArgs("/ocra/validate", "ValidateOCRA", []interface{}{secretForms, []string{"$code"}, suiteArg, inputArg}, "Valid")
+	checkArgs("/ocra/generate", "GenerateOCRA", []interface{}{secretForms, suiteArg, inputArg}, "code")
+	checkArgs("/ocra/validate", "ValidateOCRA", []interface{}{secretForms, []string{"$code"}, suiteArg, inputArg}, "valid")
 	if len(suiteArgsSeen) == 2 {
 		c.Decide(suiteArgsSeen[0] == suiteArgsSeen[1], pfx+".2", "api", "ocra-suite-resolution-agrees", "/ocra/generate and /ocra/validate resolve the suite from the request identically", "/ocra/generate and /ocra/validate resolve the suite differently: a code generated for a request need not validate for the same request", "")
 	}
@@ -788,16 +851,24 @@ func restRules(c *Check, w *World, tb *TB, ef *Effects, pfx string, only []strin
 		if len(calls) == 1 {
 			cfg := tb.Of(calls[0].Call.Value()).String()
 			want := map[string][]string{
-				"HashFunction": {"call((github.com/ja7ad/otp.Algorithm).String; field(Hash; " + cfg + "))"}, "CodeDigits": {"field(Digits; " + cfg + ")"},
-				"ChallengeFormat": {"field(Challenge; " + cfg + ")", "conv(int; field(Challenge; " + cfg + "))"}, "IncludeCounter": {"field(IncludeCounter; " + cfg + ")"},
-				"IncludeChallenge": {"field(IncludeChallenge; " + cfg + ")"}, "IncludePassword": {"field(IncludePassword; " + cfg + ")"}, "IncludeSession": {"field(IncludeSession; " + cfg + ")"},
-				"IncludeTimestamp": {"field(IncludeTimestamp; " + cfg + ")"}, "PasswordHash": {"field(PasswordHash; " + cfg + ")", "conv(int; field(PasswordHash; " + cfg + "))"}, "Timestep": {"field(TimeStep; " + cfg + ")"},
+				"hash_function": {"call((github.com/ja7ad/otp.Algorithm).String; field(Hash; " + cfg + "))"}, "code_digits": {"field(Digits; " + cfg + ")"},
+				"challenge_format": {"field(Challenge; " + cfg + ")", "conv(int; field(Challenge; " + cfg + "))"}, "include_counter": {"field(IncludeCounter; " + cfg + ")"},
+				"include_challenge": {"field(IncludeChallenge; " + cfg + ")"}, "include_password": {"field(IncludePassword; " + cfg + ")"}, "include_session": {"field(IncludeSession; " + cfg + ")"},
+				"include_timestamp": {"field(IncludeTimestamp; " + cfg + ")"}, "password_hash": {"field(PasswordHash; " + cfg + ")", "conv(int; field(PasswordHash; " + cfg + "))"}, "timestep": {"field(TimeStep; " + cfg + ")"},
 			}
 			got := map[string]string{}
 			EachInstr(r.handler, func(in ssa.Instruction) {
 				if st, ok := in.(*ssa.Store); ok {
 					if fa, ok := st.Addr.(*ssa.FieldAddr); ok {
-						got[fieldName(fa.X.Type(), fa.Field)] = tb.Of(st.Val).String()
+						name, opts := wireField(fa.X.Type(), fa.Field)
+						got[name] = tb.Of(st.Val).String()
+						for _, o := range opts {
+							// a zero password hash or time step means "none" and is documented as omitted; any other
+							// description field is always present
+							if (o == "omitempty" || o == "omitzero") && name != "password_hash" && name != "timestep" || o == "string" {
+								got[name] = "json option " + o + " on " + got[name]
+							}
+						}
 					}
 				}
 			})
@@ -819,19 +890,15 @@ func restRules(c *Check, w *World, tb *TB, ef *Effects, pfx string, only []strin
 			g := calls[0].Args[0].String()
 			ok := strings.HasPrefix(g, "call(github.com/ja7ad/otp.AlgorithmFromStr; conv(string; call((*github.com/valyala/fasthttp.Args).Peek;") && strings.Contains(g, `const("algorithm")`)
 			c.Decide(ok, pfx+".2", fn, "RandomSecret.arg0", "hash ← AlgorithmFromStr(query algorithm)", "RandomSecret is called with "+clip(g, 200), w.InstrPos(calls[0].Call))
+			pos := w.InstrPos(calls[0].Call)
+			checkRespField(c, w, tb, pfx+".2", r.handler, "secret", tb.Of(calls[0].Call.Value()).String(), "the first result of otp.RandomSecret", pos)
+			// the label returned with the secret names the hash the secret was sized for
+			checkRespField(c, w, tb, pfx+".2", r.handler, "algorithm", "call((github.com/ja7ad/otp.Algorithm).String; "+g+")", "the name of the hash handed to otp.RandomSecret", pos)
 		}
 	}
 	// /ocra/suites
 	if r, ok := byPath["/ocra/suites"]; ok && r.handler != nil && sel("/ocra/suites") {
-		found := false
-		EachInstr(r.handler, func(in ssa.Instruction) {
-			if st, ok := in.(*ssa.Store); ok {
-				if fa, ok := st.Addr.(*ssa.FieldAddr); ok && fieldName(fa.X.Type(), fa.Field) == "Suites" {
-					found = tb.Of(st.Val).String() == "call(github.com/ja7ad/otp.ListSuites)"
-				}
-			}
-		})
-		c.Decide(found, pfx+".2", FuncName(r.handler), "response.Suites", "the suite list is the library's ListSuites()", "the suites response is not ListSuites()", w.Pos(r.handler.Pos()))
+		checkRespField(c, w, tb, pfx+".2", r.handler, "suites", "call(github.com/ja7ad/otp.ListSuites)", "the library's ListSuites()", w.Pos(r.handler.Pos()))
 	}
 
 	if !full {
